@@ -662,6 +662,67 @@ func integMutate(rng *Rng, f []byte) []byte {
 	return b
 }
 
+// integSeal wraps record bytes into a single sequence with a 14-byte header and valid CRCs.
+func integSeal(recs []byte) []byte {
+	hdr := []byte{14, 0x20, 0x5c, 0x08, 0, 0, 0, 0, '.', 'F', 'I', 'T'}
+	binary.LittleEndian.PutUint32(hdr[4:8], uint32(len(recs)))
+	hdr = binary.LittleEndian.AppendUint16(hdr, integCrc(hdr))
+	f := append(hdr, recs...)
+	return binary.LittleEndian.AppendUint16(f, integCrc(f))
+}
+
+// integDevCase: hand-made record streams around developer fields: a field_description message (206) of random
+// shape (duplicate / missing / oversized / zero-size fields, both architectures, compressed header), then a
+// definition with developer fields and its data. Exercises the part of Decode's framing that depends on decoded values.
+func integDevCase(rng *Rng) []byte {
+	var recs []byte
+	pick := func(xs ...byte) byte { return xs[rng.Intn(len(xs))] }
+	nDesc := rng.Range(1, 3)
+	for d := 0; d < nDesc; d++ {
+		arch := pick(0, 0, 0, 1, 2)
+		mesg := []byte{206, 0}
+		if arch != 0 && rng.Intn(4) != 0 {
+			mesg = []byte{0, 206}
+		}
+		if rng.Intn(10) == 0 {
+			mesg = []byte{207, 0}
+		}
+		nf := rng.Range(0, 5)
+		def := []byte{0x40 | byte(d), 0, arch, mesg[0], mesg[1], byte(nf)}
+		var data []byte
+		for i := 0; i < nf; i++ {
+			num := pick(0, 1, 2, 2, 3, 253)
+			size := pick(0, 1, 1, 1, 2, 3)
+			bt := pick(0x02, 0x02, 0x00, 0x84, 0x07)
+			def = append(def, num, size, bt)
+			for k := byte(0); k < size; k++ {
+				data = append(data, pick(0, 0, 1, 2, 0x02, 0x84, 0x07, 0x99, 0xff, byte(rng.Intn(256))))
+			}
+		}
+		hdr := byte(d)
+		if rng.Intn(6) == 0 {
+			hdr = 0x80 | byte(d)<<5 | byte(rng.Intn(32))
+		}
+		recs = append(recs, def...)
+		recs = append(recs, hdr)
+		recs = append(recs, data...)
+	}
+	nDev := rng.Range(1, 3)
+	def := []byte{0x60 | 5, 0, 0, 20, 0, 1, 3, 1, 2, byte(nDev)}
+	data := []byte{5, 70}
+	for i := 0; i < nDev; i++ {
+		size := pick(0, 1, 1, 2, 4)
+		def = append(def, pick(0, 1, 2, 0xff), size, pick(0, 0, 1, 0xff))
+		data = append(data, rng.Bytes(int(size))...)
+	}
+	recs = append(recs, def...)
+	recs = append(recs, data...)
+	if rng.Bool() {
+		recs = append(recs, data...)
+	}
+	return integSeal(recs)
+}
+
 func genIntegrity(emit func(string), tier string, rng *Rng) {
 	thorough := tier == "thorough"
 	// ---- (a) fixtures
@@ -804,6 +865,19 @@ func genIntegrity(emit func(string), tier string, rng *Rng) {
 			b = integMutate(rng, f)
 		}
 		emit(integOp(rng.Intn(4) != 0, []int{0, 0, 0, 765, 5000}[rng.Intn(5)], b))
+	}
+	// ---- (c') developer-field surgery
+	ndev := 3000
+	if thorough {
+		ndev = 60000
+	}
+	for i := 0; i < ndev; i++ {
+		b := integDevCase(rng)
+		if rng.Intn(5) == 0 {
+			b = integMutate(rng, b)
+		}
+		emit(integOp(rng.Intn(5) != 0, 0, b))
+		count("devcase")
 	}
 	// ---- (d) arbitrary byte strings and multi-step mutations: differential against the reference
 	narb := 16000
